@@ -80,7 +80,16 @@ class Arr:
         if self.shape != o.shape:
             a, b = self.shape[::-1], o.shape[::-1]
             if all(x == y or x == 1 or y == 1 for x, y in zip(a, b)):
-                raise Unsupported("broadcasting of shapes %s and %s is not modelled" % (self.shape, o.shape))
+                # numpy broadcasting (at most two dimensions)
+                def as2(x):
+                    return x.data if x._ndim == 2 else [list(x.data)]
+                A, B = as2(self), as2(o)
+                ra, ca, rb, cb = len(A), len(A[0]) if A else 0, len(B), len(B[0]) if B else 0
+                R_, C_ = max(ra, rb), max(ca, cb)
+                out = [[f(A[i if ra > 1 else 0][j if ca > 1 else 0], B[i if rb > 1 else 0][j if cb > 1 else 0]) for j in range(C_)] for i in range(R_)]
+                if self._ndim == 1 and o._ndim == 1:
+                    return Arr(out[0], 1)
+                return Arr(out, 2)
             raise PathRaise("ValueError(operands could not be broadcast together with shapes %s %s)" % (self.shape, o.shape), "array arithmetic")
         if self._ndim == 2:
             return Arr([[f(a, b) for a, b in zip(r1, r2)] for r1, r2 in zip(self.data, o.data)], 2)
@@ -634,8 +643,19 @@ class Interp:
             env[t.id] = v
         elif isinstance(t, (ast.Tuple, ast.List)):
             vals = self.iterate(v, t)
+            stars = [i for i, e in enumerate(t.elts) if isinstance(e, ast.Starred)]
+            if len(stars) == 1:
+                i = stars[0]
+                after = len(t.elts) - i - 1
+                if len(vals) < len(t.elts) - 1:
+                    raise PathRaise("ValueError(not enough values to unpack)", self.where(t))
+                parts = vals[:i] + [list(vals[i:len(vals) - after])] + (vals[len(vals) - after:] if after else [])
+                targets = [e.value if isinstance(e, ast.Starred) else e for e in t.elts]
+                for tt, vv in zip(targets, parts):
+                    self.assign(tt, vv, env)
+                return
             if len(vals) != len(t.elts):
-                raise self.unsupported("unpack length mismatch", t)
+                raise PathRaise("ValueError(unpack: expected %d values, got %d)" % (len(t.elts), len(vals)), self.where(t))
             for tt, vv in zip(t.elts, vals):
                 self.assign(tt, vv, env)
         elif isinstance(t, ast.Attribute):
@@ -869,11 +889,20 @@ class Interp:
         finally:
             self.fn_stack.pop()
 
+    def _elts(self, elts, env):
+        out = []
+        for e in elts:
+            if isinstance(e, ast.Starred):
+                out.extend(self.iterate(self.ev(e.value, env), e))
+            else:
+                out.append(self.ev(e, env))
+        return out
+
     def ev_List(self, n, env):
-        return [self.ev(e, env) for e in n.elts]
+        return self._elts(n.elts, env)
 
     def ev_Tuple(self, n, env):
-        return tuple(self.ev(e, env) for e in n.elts)
+        return tuple(self._elts(n.elts, env))
 
     def ev_Dict(self, n, env):
         return {self.hashable(self.ev(k, env), n): self.ev(v, env) for k, v in zip(n.keys, n.values)}
@@ -1175,6 +1204,8 @@ class Interp:
 
     # ------------------------------------------------------------------------------------ subscripts
     def ev_index(self, sl, env):
+        if isinstance(sl, _Lit) and isinstance(sl.value, (slice, IndexSet, int, tuple, list)):
+            return sl.value
         if isinstance(sl, ast.Constant) and sl.value is Ellipsis:
             return slice(None)
         if isinstance(sl, ast.Tuple) and len(sl.elts) == 2 and not any(isinstance(e, ast.Slice) for e in sl.elts):
@@ -1184,9 +1215,10 @@ class Interp:
                 cols = [self.intval(x, sl) for x in (vals[1].data if isinstance(vals[1], Arr) else vals[1])]
                 if len(rows) == len(cols):
                     return IndexSet(list(zip(rows, cols)))
-            return tuple(x if isinstance(x, (slice, IndexSet)) else self.intval(x, sl) for x in vals)
+            return tuple(x if isinstance(x, (slice, IndexSet)) or x is None else self.intval(x, sl) for x in vals)
         if isinstance(sl, ast.Tuple):
-            return tuple(self.ev_index(e, env) for e in sl.elts)
+            return tuple(None if (isinstance(e, ast.Constant) and e.value is None) or
+                         (isinstance(e, ast.Attribute) and e.attr == "newaxis") else self.ev_index(e, env) for e in sl.elts)
         if isinstance(sl, ast.Slice):
             lo = self.intval(self.ev(sl.lower, env), sl) if sl.lower is not None else None
             hi = self.intval(self.ev(sl.upper, env), sl) if sl.upper is not None else None
@@ -1259,6 +1291,14 @@ class Interp:
                 return Arr([v.data[i][j] for i, j in idx.pairs], 1)
             except IndexError:
                 raise PathRaise("IndexError", self.where(node))
+        if isinstance(idx, tuple) and any(x is None for x in idx) and v.ndim == 1 and len(idx) == 2:
+            # v[:, np.newaxis] -> column ; v[np.newaxis, :] -> row
+            rest = [x for x in idx if x is not None]
+            if len(rest) == 1 and isinstance(rest[0], slice):
+                vals = v.data[rest[0]]
+                return Arr([[x] for x in vals], 2) if idx[1] is None else Arr([list(vals)], 2)
+        if idx is None and isinstance(v, Arr) and v.ndim == 1:
+            return Arr([list(v.data)], 2)
         if isinstance(idx, list):
             try:
                 if v.ndim == 1:
@@ -1309,6 +1349,8 @@ class Interp:
         v = self.ev(n.value, env)
         a = n.attr
         if isinstance(v, Opaque):
+            if v.kind == "npfunc" and v.payload[0] in ("add", "subtract") and a == "at":
+                return Opaque("ufunc_at", v.payload[0])
             if v.kind == "module":
                 return self.module_attr(v.payload[0], a, n)
             if v.kind == "npsub":
@@ -1333,6 +1375,8 @@ class Interp:
                 if k[0] == "const":
                     return self.ev(k[1], {})
                 return Opaque("bound", v, a)
+        if isinstance(v, Arr) and a == "__dict__":
+            return v.__dict__.setdefault("attrs", {})
         if isinstance(v, Arr) and a in v.__dict__.get("attrs", {}):
             return v.__dict__["attrs"][a]
         if isinstance(v, Arr):
@@ -1346,7 +1390,7 @@ class Interp:
                 return Poly.const(len(v.flat()))
             if a in ARR_METHODS:
                 return Opaque("arrmeth", v, a)
-            raise PathRaise("AttributeError(ndarray.%s)" % a, self.where(n))
+            raise self.unsupported("ndarray attribute %s" % a, n)
         if isinstance(v, ClassRef):
             for c_ in (self.pkg.mro(v.name) if v.name in self.pkg.classes else [v.name]):
                 if (c_, a) in self.class_attrs:
@@ -1382,6 +1426,11 @@ class Interp:
         if isinstance(v, Poly):
             if a in ("real",):
                 return v
+            if a in ("tobytes", "tostring"):
+                import hashlib as _h
+                return Opaque("callable", (lambda v=v: "bytes:" + _h.sha1(repr(sorted((tuple(m), str(c)) for m, c in v.t.items())).encode()).hexdigest() + ";"))
+            if a == "item":
+                return Opaque("callable", (lambda v=v: v))
         if isinstance(v, VFile):
             return Opaque("vfile", v, a)
         if isinstance(v, BoolArr) and a in ("all", "any"):
@@ -1395,6 +1444,8 @@ class Interp:
     def module_attr(self, mod, a, n):
         if a == "pi":
             return PI()
+        if a == "newaxis":
+            return None
         if a in OK_DTYPES:
             return Opaque("dtype", a)
         if a == "ndarray":
@@ -1464,6 +1515,26 @@ class Interp:
                         raise self.unsupported("missing argument %s" % p_, n)
                     call_env[p_] = self.ev(a.defaults[j_], cenv)
             return self.run(fn, call_env)
+        if k == "ufunc_at":
+            # np.add.at(a, idx, b): unbuffered in-place a[idx] += b
+            target, idx_v, val = args
+            op_ = ast.Add if f.payload[0] == "add" else ast.Sub
+            if not isinstance(target, Arr):
+                raise self.unsupported("ufunc.at on %r" % (target,), n)
+            if isinstance(idx_v, (Arr, list)) and target.ndim == 1:
+                ids = [self.intval(x, n) for x in (idx_v.data if isinstance(idx_v, Arr) else idx_v)]
+                vals_ = val.flat() if isinstance(val, Arr) else [self.scalar(val, n)] * len(ids)
+                if len(vals_) != len(ids):
+                    raise PathRaise("ValueError(ufunc.at shapes)", self.where(n))
+                for i_, x_ in zip(ids, vals_):
+                    target.data[i_] = self.arith(op_, target.data[i_], x_, n)
+                return None
+            idx = idx_v if isinstance(idx_v, (slice, IndexSet)) else (tuple(x if isinstance(x, slice) else self.intval(x, n) for x in idx_v)
+                                                                       if isinstance(idx_v, tuple) else self.intval(idx_v, n))
+            cur = self.index(target, idx, n)
+            new_ = self.arith(op_, cur, val, n)
+            self.store(target, _Lit(idx), new_, {}, n)
+            return None
         if k == "vfile":
             return f.payload[0].call(self, f.payload[1], args, n)
         if k == "logmeth":
@@ -1483,7 +1554,7 @@ class Interp:
             return None
         if origin.startswith("itertools"):
             import itertools as _it
-            seqs = [self.iterate(a, n) for a in args]
+            seqs = [self.iterate(a, n) for a in args] if leaf in ("chain", "product") else []
             if leaf == "chain":
                 return [x for s_ in seqs for x in s_]
             if leaf == "product":
@@ -1493,9 +1564,23 @@ class Interp:
                 r_ = self.intval(args[1], n) if len(args) > 1 else None
                 f_ = getattr(_it, leaf)
                 return [tuple(c) for c in (f_(self.iterate(args[0], n), r_) if r_ is not None else f_(self.iterate(args[0], n)))]
+            if leaf == "accumulate":
+                items = self.iterate(args[0], n)
+                out_ = []
+                acc_ = kw.get("initial")
+                if acc_ is not None:
+                    out_.append(acc_)
+                for x in items:
+                    acc_ = x if acc_ is None else self.arith(ast.Add, acc_, x, n)
+                    out_.append(acc_)
+                return out_
             if leaf == "islice":
                 iv = [None if a is None else self.intval(a, n) for a in args[1:]]
                 return list(_it.islice(self.iterate(args[0], n), *iv))
+        if origin.startswith("operator") and leaf == "methodcaller":
+            mname, margs = args[0], list(args[1:])
+            return Opaque("callable", (lambda obj, mname=mname, margs=margs: self.call_method(obj, mname, margs) if isinstance(obj, (Pose, Obj))
+                                       else self.arr_method(obj, mname, margs, {}, n)))
         if origin.startswith("operator") and leaf in ("itemgetter", "attrgetter"):
             keys = list(args)
             if leaf == "itemgetter":
@@ -1516,6 +1601,21 @@ class Interp:
             for x in seq:
                 acc = self.call_value(fn, [acc, x], n)
             return acc
+        if leaf in ("coo_matrix", "csr_matrix", "csc_matrix") and args and isinstance(args[0], tuple) and len(args[0]) == 2 and \
+                isinstance(args[0][1], (tuple, list)) and len(args[0][1]) == 2:
+            data_, (rows_, cols_) = args[0]
+            shp_ = kw.get("shape", args[1] if len(args) > 1 else None)
+            if shp_ is None:
+                raise self.unsupported("sparse matrix from triplets without shape", n)
+            r_, c_ = self.intval(shp_[0], n), self.intval(shp_[1], n)
+            a_ = Arr([[Poly() for _ in range(c_)] for _ in range(r_)], 2)
+            dv = self.to_arr(data_, n).flat() if not isinstance(data_, Arr) else data_.flat()
+            rv = [self.intval(x, n) for x in (rows_.flat() if isinstance(rows_, Arr) else rows_)]
+            cv = [self.intval(x, n) for x in (cols_.flat() if isinstance(cols_, Arr) else cols_)]
+            for i_, j_, x_ in zip(rv, cv, dv):
+                a_.data[i_][j_] = a_.data[i_][j_] + x_      # duplicate entries are summed on conversion
+            a_.sparse = True
+            return a_
         if leaf in ("lil_matrix", "csr_matrix", "csc_matrix", "dok_matrix", "coo_matrix"):
             self.check_dtype(kw, n)
             shp = args[0]
@@ -1536,6 +1636,8 @@ class Interp:
         raise self.unsupported("call of imported %s" % origin, n)
 
     def call_value(self, f, args, n):
+        if isinstance(f, ClassRef) and f.name in ("float", "int", "str"):
+            return self.builtin(f.name, list(args), {}, n, {})
         if isinstance(f, ClassRef):
             return self.construct(f.name, args)
         if isinstance(f, Opaque):
@@ -1603,8 +1705,15 @@ class Interp:
             return sum(v.flat(), Poly())
         if name == "round":
             raise LossyOperation("ndarray.round", self.where(n))
-        if name in ("tocsr", "tocsc", "tolil", "todense", "toarray", "tocoo", "squeeze", "conj", "conjugate"):
+        if name in ("tocsr", "tocsc", "tolil", "todense", "toarray", "tocoo", "squeeze", "conj", "conjugate", "__array__"):
             return v
+        if name in ("tobytes", "tostring"):
+            # the raw contents as an opaque, hashable value: equal contents <=> equal value
+            import hashlib as _h
+            return "bytes:" + _h.sha1(repr([sorted((tuple(m), str(c)) for m, c in x.t.items()) if isinstance(x, Poly) else repr(x)
+                                            for x in v.flat()]).encode()).hexdigest() + ";"
+        if name in ("setflags", "eliminate_zeros", "sum_duplicates"):
+            return None
         if name == "all":
             return all(self.truth(x, n) for x in v.flat())
         if name == "item":
@@ -1670,6 +1779,14 @@ class Interp:
                 for x in self.iterate(args[0], n):
                     v.add(self.hashable(x, n))
                 return None
+            if name == "isdisjoint":
+                return not any(self.hashable(x, n) in v for x in self.iterate(args[0], n))
+            if name == "issubset":
+                other = set(self.hashable(x, n) for x in self.iterate(args[0], n))
+                return set(v) <= other
+            if name == "intersection":
+                other = set(self.hashable(x, n) for x in self.iterate(args[0], n))
+                return set(v) & other
             if name in ("union", "copy"):
                 r = set(v)
                 for a_ in args:
@@ -1695,10 +1812,16 @@ class Interp:
                     return args[1]
                 raise PathRaise("KeyError", self.where(n))
             if name == "update":
-                other = args[0]
+                other = args[0] if args else {}
                 if isinstance(other, dict):
                     v.update(other)
-                    return None
+                else:
+                    for pair in self.iterate(other, n):
+                        k2, v2 = self.iterate(pair, n)
+                        v[self.hashable(k2, n)] = v2
+                for k2, v2 in kw.items():
+                    v[k2] = v2
+                return None
             if name == "copy":
                 return dict(v)
         if isinstance(v, str):
@@ -1917,6 +2040,13 @@ class Interp:
             if len(args) > 1:
                 return args[1]
             raise PathRaise("StopIteration", self.where(n))
+        if name == "divmod":
+            a_, b_ = self.scalar(args[0], n), self.scalar(args[1], n)
+            if a_.const_value() is not None and b_.const_value() is not None:
+                q_, r_ = divmod(Fraction(a_.const_value()), Fraction(b_.const_value()))
+                return (Poly.const(q_), Poly.const(r_))
+            self.floordivs = getattr(self, "floordivs", 0) + 1
+            return (Poly.var("floordiv#%d" % self.floordivs), self.arith(ast.Mod, a_, b_, n))
         if name == "slice":
             iv = [None if a is None else self.intval(a, n) for a in args]
             return slice(*iv)
@@ -2053,10 +2183,22 @@ class Interp:
         return v
 
     # ------------------------------------------------------------------------------------ numpy
-    def check_dtype(self, kw, n):
+    def check_dtype(self, kw, n, value=None):
         d = kw.get("dtype")
         if d is None:
             return
+        if (isinstance(d, Opaque) and d.kind == "npfunc" and d.payload[0] in ("intp", "int64", "int32", "int_", "uint64", "int")) or \
+                (isinstance(d, ClassRef) and d.name == "int"):
+            # an integer array is exact when every entry is an integer constant (index arrays)
+            if value is None:
+                return      # zeros / ones / empty / arange of an integer dtype are exact
+            try:
+                flat = self.to_arr(value, n).flat()
+            except Unsupported:
+                flat = None
+            if flat is not None and all(x.const_value() is not None and int(x.const_value()) == x.const_value() for x in flat):
+                return
+            raise LossyOperation("array cast to an integer dtype", self.where(n))
         if isinstance(d, Opaque) and d.kind == "dtype":
             return
         if d is FLOAT or (isinstance(d, ClassRef) and d.name == "float"):
@@ -2162,8 +2304,19 @@ class Interp:
     def npfunc(self, name, args, kw, n):
         if name in LOSSY_NP:
             raise LossyOperation("np.%s" % name, self.where(n))
+        if name == "indices":
+            shp = args[0]
+            dims = [self.intval(x, n) for x in shp] if isinstance(shp, (tuple, list)) else [self.intval(shp, n)]
+            if len(dims) == 2:
+                r_, c_ = dims
+                return [Arr([[Poly.const(i) for _ in range(c_)] for i in range(r_)], 2), Arr([[Poly.const(j) for j in range(c_)] for _ in range(r_)], 2)]
+            if len(dims) == 1:
+                return [Arr([Poly.const(i) for i in range(dims[0])], 1)]
+        if name == "fromiter":
+            self.check_dtype(kw, n, list(self.iterate(args[0], n)))
+            return self.to_arr(list(self.iterate(args[0], n)), n)
         if name in ("array", "asarray", "asanyarray", "ascontiguousarray", "copy"):
-            self.check_dtype(kw, n)
+            self.check_dtype(kw, n, args[0])
             v = args[0]
             if isinstance(v, Pose) and name == "asanyarray":
                 return v
@@ -2645,8 +2798,8 @@ def _dotp(r, c):
 
 
 OPNAME = {ast.Lt: "<", ast.LtE: "<=", ast.Gt: ">", ast.GtE: ">=", ast.Eq: "==", ast.NotEq: "!="}
-ARR_METHODS = {"squeeze", "conj", "conjugate", "all", "item", "max", "min", "fill", "tocsr", "tocsc", "tolil", "todense", "toarray", "tocoo", "any", "view", "copy", "dot", "transpose", "flatten", "ravel", "tolist", "astype", "reshape", "sum", "round"}
-BUILTIN_NAMES = {"slice", "map", "filter", "sorted", "getattr", "hasattr", "setattr", "next", "iter", "id", "abs", "bool", "open", "str", "repr", "set", "frozenset", "dict", "isinstance", "issubclass", "type", "len", "range", "zip", "enumerate", "reversed", "list", "tuple",
+ARR_METHODS = {"eliminate_zeros", "sum_duplicates", "setflags", "tobytes", "tostring", "__array__", "squeeze", "conj", "conjugate", "all", "item", "max", "min", "fill", "tocsr", "tocsc", "tolil", "todense", "toarray", "tocoo", "any", "view", "copy", "dot", "transpose", "flatten", "ravel", "tolist", "astype", "reshape", "sum", "round"}
+BUILTIN_NAMES = {"divmod", "slice", "map", "filter", "sorted", "getattr", "hasattr", "setattr", "next", "iter", "id", "abs", "bool", "open", "str", "repr", "set", "frozenset", "dict", "isinstance", "issubclass", "type", "len", "range", "zip", "enumerate", "reversed", "list", "tuple",
                  "all", "any", "sum", "max", "min", "super", "print", "round", "int", "abs", "NotImplementedError"}
 
 
